@@ -33,6 +33,10 @@ func (e StdEng) argmaxDenseTensor(t DenseTensor, axis int) (retVal *Dense, err e
 			}
 			dataA = t.hdr()
 		}
+		if t.DataOrder().IsColMajor() {
+			t = asRowMajor(t)
+			dataA = t.hdr()
+		}
 		var index int
 		if mt, ok := t.(MaskedTensor); ok && mt.IsMasked() {
 			if index = e.E.ArgmaxFlatMasked(typ, dataA, mt.Mask()); index == -1 {
@@ -125,6 +129,10 @@ func (e StdEng) argminDenseTensor(t DenseTensor, axis int) (retVal *Dense, err e
 			if t, ok = v.Materialize().(DenseTensor); !ok {
 				return nil, errors.Errorf(typeNYI, "StdEng.Argmin", v)
 			}
+			dataA = t.hdr()
+		}
+		if t.DataOrder().IsColMajor() {
+			t = asRowMajor(t)
 			dataA = t.hdr()
 		}
 		var index int
